@@ -22,10 +22,10 @@ MANIFEST = dict(
     note='Mean character confidence is recomputed by a reference implementation of the documented definition (it agrees with get_line_confidence on every enumerated case of the unchanged tree); more than 3 engines / 2 lines are not explored.',
     ref='3/C19')
 
-TRANS = [None, '', 'ab', 'ba', 'b', 'bab', 'abb']
+TRANS = [None, '', 'ab', 'ba', 'b', 'bab', 'abb', 'aabb']       # 'aabb' needs 6 frames: on the 5-frame matrices it cannot be aligned (0.5 fallback)
 LOGITS = ['ab', 'ba', 'diffuse', 'bb', 'perchar', 'bab_leaky', 'perchar_off', 'ab_big32', 'abb']
 ORDERS = [['a', 'b', '​'], ['b', 'a', '​']]
-BOUNDS = {'quick': dict(engines=3, three_engine_variants=26, two_line_variants=12),
+BOUNDS = {'quick': dict(engines=3, three_engine_variants=26, two_line_variants=14),
           'thorough': dict(engines=3, three_engine_variants=10 ** 6, two_line_variants=20)}
 BOUNDS['replay'] = BOUNDS['quick']
 VARIANTS = [(t, l, o) for t in range(len(TRANS)) for l in range(len(LOGITS)) for o in range(2)
@@ -43,7 +43,7 @@ def sub_variants(k):
     # deterministic sub-alphabet that keeps every transcription, every logit kind and both charset orders
     picked, seen_t, seen_l = [], set(), set()
     for v in VARIANTS:
-        if v[0] not in seen_t or v[1] not in seen_l:
+        if (v[0] not in seen_t or v[1] not in seen_l) and v[2] == len(picked) % 2:      # the charset orders alternate
             picked.append(v); seen_t.add(v[0]); seen_l.add(v[1])
     for v in VARIANTS[::3]:
         if len(picked) >= k:
@@ -62,9 +62,21 @@ def shards(tier):
     return out
 
 
+TWO_LINE = [(None, 'ab', 0), ('', 'ba', 1), ('ab', 'ab', 0), ('ab', 'ab', 1), ('ba', 'ab', 0), ('ba', 'ba', 1), ('b', 'bb', 0),
+            ('bab', 'bab_leaky', 1), ('abb', 'abb', 0), ('aabb', 'ab', 1), ('ab', 'diffuse', 0), ('ab', 'perchar', 1),
+            ('ba', 'perchar_off', 0), ('ab', 'ab_big32', 1)]
+
+
 def two_line_variants(tier):
-    # a sub-alphabet that still has every transcription, every logit kind and both charset orders
-    return sub_variants(BOUNDS[tier]['two_line_variants'])[:BOUNDS[tier]['two_line_variants']]
+    # a sub-alphabet that has every transcription, every logit kind and both charset orders (the two lines of ONE engine may carry
+    # different character tables, as the lines of a merged layout do)
+    out = [(TRANS.index(t), LOGITS.index(l), o) for t, l, o in TWO_LINE]
+    for v in sub_variants(10 ** 6):
+        if len(out) >= BOUNDS[tier]['two_line_variants']:
+            break
+        if v not in out:
+            out.append(v)
+    return out[:BOUNDS[tier]['two_line_variants']]
 
 
 def run_shard(shard, ctx, tier):
